@@ -32,7 +32,37 @@
 //! Non-trivial = the history has an `EmitFirst(n)` with 0 < n < len that is followed by an `Intern`
 //! mixing keys that survived the emit with keys that are new.
 //!
-//! Guards: floats use one NaN pattern and no −0.0.
+//! Guards: floats use one NaN pattern and no −0.0. A row-based store asked to emit a dictionary over
+//! Boolean / Duration / Interval values answers with arrow's clean "Unsupported output type for dictionary
+//! packing" error: such schemas are not generated for `impl=rows` (and are a discard on replay).
+//!
+//! GENUINE DEFECTS found on the unchanged tree (each with a regression case under
+//! /verif/regressions/C13/c13/, an `open` entry in known_findings.json and a `known_signature` that
+//! excludes exactly its sub-shape; `VERIF_IGNORE_KNOWN=C13` disables the exclusion — with both repair
+//! patches applied `VERIF_IGNORE_KNOWN=C13 ./check C13 quick` exits 0 with nothing excluded):
+//!  F5 (reachable): `GroupValuesColumn<false>::emit(EmitTo::First(n))` compacts `group_index_lists` in place
+//!     while `HashTable::retain` walks the buckets in table order; a surviving list written to slot
+//!     `next_new_list_offset` can overwrite the list of a bucket not visited yet, whose groups then lose
+//!     their map entry — the same key is later interned again as a NEW group (duplicate output groups).
+//!     Needs ≥ 2 hash values each shared by ≥ 2 groups; NULLs are skipped when row hashes are combined, so
+//!     (x, NULL, v) / (x, v, NULL) or NULL-list / empty-list keys collide without any 64-bit accident.
+//!     Replay column-emit-first-colliding-buckets.json; repair /verif/fixes/C13-emit-first-group-index-lists.diff.
+//!  F1–F3 (latent): `clear_shrink` on a store that still holds groups does not clear everything:
+//!     `GroupValuesPrimitive` keeps `null_group`, `GroupValuesBytes` / `GroupValuesBytesView` keep `num_groups`.
+//!  F4 (latent): `GroupValuesColumn::emit(EmitTo::All)` installs fresh column builders ("immediately reusable"
+//!     says its comment) but leaves `map` / `group_index_lists` populated: the next `intern` compares against
+//!     rows that no longer exist (index-out-of-bounds panic or wrong ids).
+//!     F1–F4 are unreachable from today's aggregation streams (they only clear an emptied store and always
+//!     clear after emitting everything) but violate the property as stated and the trait's rustdoc;
+//!     repair /verif/fixes/C13-reset-on-clear-and-emit-all.diff.
+//!
+//! Sensitivity probes (mkpatch + mutrun, `./check C13 quick`):
+//!  1. single_group_by/boolean.rs: `true_group` index not shifted down after `emit(First(n))`  -> VIOLATION (1 089 cases)
+//!  2. null_builder.rs `take_n`: remaining validity bits copied from `i - n` instead of `i`       -> VIOLATION (8 cases)
+//!  3. multi_group_by/bytes.rs `take_n`: remaining offsets not rebased — the mutant feeds inconsistent
+//!     offsets to `new_unchecked` and the process crashes (exit 2), so this one is not counted.
+//!  Not reachable: `ByteViewGroupValueBuilder::take_n` buffer-index shifting needs > 2 MB of long strings
+//!  (its block size is not configurable from outside).
 use crate::keys::*;
 use arrow::array::{Array, ArrayRef};
 use arrow::datatypes::{Field, Schema};
